@@ -11,6 +11,8 @@ classes(
                           "_line_end": "opt[int]", "_column_end": "opt[int]"}),
     ErrorContext=dict(fields={"input_str": "str", "file_name": "opt[str]", "start_position": "int",
                               "end_position": "int"}),
+    # view used for is_eof: the input may be any sequence (list inputs), not only text
+    LocationSeq=dict(fields={"start_position": "opt[int]", "end_position": "opt[int]", "input_str": "any"}),
 )
 
 # ---- common.pos_to_line_col, textual input -----------------------------------------------------------------
@@ -32,7 +34,7 @@ contract("parglare.common.pos_to_line_col@str",
              "implies(position is not None and result[1] < position, input_str[position - result[1]] == '\\n')"]})])
 
 contract("parglare.common.Location.is_eof",
-         params={"self": "ref[Location]"}, returns="bool",
+         params={"self": "ref[LocationSeq]"}, returns="bool",
          ensures=["result == (self.input_str is not None and self.start_position is not None and "
                   "self.start_position == len(self.input_str))"],
          modifies=[], properties=("C10",))
